@@ -49,3 +49,11 @@ Proof. unfold gen_linear. rewrite gen_backoff_min_is_model. reflexivity. Qed.
 Lemma gen_exponential_is_model sleep mx jrc r base n :
   backoff "exponential" (VFloat sleep) mx jrc r base n = Some (gen_exponential sleep base mx n).
 Proof. unfold gen_exponential. rewrite gen_backoff_min_is_model. reflexivity. Qed.
+
+(** [Context.get_eval_string], read from the source: a !py expression is evaluated in a chain of
+    namespaces whose FIRST map is a fresh empty dict created by that very call (so names bound with :=
+    die with the evaluation and can shadow nothing afterwards), then the context, then the imports;
+    there is no other namespace argument; an empty expression raises ValueError. *)
+Lemma gen_eval_scope_is_fresh_chain :
+  gen_eval_scope = (["{}"; "self"; "self._pystring_globals"]%list, true).
+Proof. reflexivity. Qed.
